@@ -288,6 +288,9 @@ func init() {
 		wireSequenceFrame(w, r, "C05", map[string]bool{"MatchPair": true})
 		// a key maps to exactly one packet: the parse phase rejects a key that occurs twice in one table (across pairs and lists)
 		visitorKeepsNoPacketState(w, r, "C05")
+		// round 9: a key written as a string literal reaches the emitted comparison as written - not through the html/template renderer,
+		// which turns its quotes into &#34; (the dispatch chain of a string-keyed table is then not a program)
+		wireTemplateTaint(w, wc, r, "C05", []string{"go", "rust", "java", "python", "cpp", "lua"})
 		matchKeysCheckedWhereverCollected(w, r, "C05")
 		declarationKindIsModelled(w, r, "C05", map[string]bool{"MatchFieldAttribute": true})
 		genReach := map[*ssa.Function]bool{}
@@ -324,6 +327,9 @@ func init() {
 		wireCppBeName(wc, r, "C06", []string{"enc", "dec"}, 1<<kCheckSum)
 		wireRawType(w, r, "C06", "CheckSumFieldAttribute.Type")
 		declarationKindIsModelled(w, r, "C06", map[string]bool{"CheckSumFieldAttribute": true})
+		// round 9: the checksum declared inside an inline object is that object's own - a by-name lookup that replaces the inline
+		// packet by a declared packet of the same name swaps its calculated field (algorithm, width) for the other packet's
+		inlineObjectKeepsItsPacket(w, r, "C06")
 		wireModelFrame(w, r, "C06", frameWire, frameCheckSum, nil, "a generator rewrites the checksum attribute / the kind of a field in the shared model: the targets generated after it no longer calculate the checksum the DSL declares")
 		wireOrder(wc, r, "C06", "enc")
 		wireOneByteEndian(w, wc, r, "C06")
